@@ -116,6 +116,23 @@ def run(prop, seed, tier):
             cases += 1
             if err is None:
                 fail('accepted:' + label, text, 'rule breaker accepted (%s)' % label)
+        # isar constants whose value text is not a constant expression: whatever is accepted must still import
+        for label, text in (('value that is no expression', '<constant name="A" value="1 +"/>'),
+                            ('value naming an unknown symbol', '<constant name="A" value="NOSUCH + 1"/>')):
+            n += 1
+            src = sc.write('c%d.xml' % n, '<xml>' + text + '</xml>')
+            out = sc.path('co%d' % n)
+            os.makedirs(out)
+            try:
+                nodes, err, _ = lib.run_prophyc(['--isar', src, '--python_out', out, '--quiet'])
+            except Exception as ex:
+                err = 'exception %r' % ex
+            cases += 1
+            if err is None:
+                try:
+                    lib.import_generated(out, 'c%d' % n)
+                except Exception as ex:
+                    fail('isar-constant-passthrough:' + label, text, 'accepted (isar constant with a %s), but the generated module does not import: %r' % (label, ex))
         valid = [(BASE + v, 'v%d' % i) for i, v in enumerate(VALID)]
         structs = F.sample_structs(rng, 40 if tier == 'quick' else 400, 4)
         valid.append((F.Pool.TEXT + ''.join(t for t, _ in structs), 'fam'))
